@@ -134,6 +134,15 @@ def body_float32(case):
                     labels.add("beta<=1deg")
                 if a in (0.0, 20.0, 11.0):
                     labels.add("altitude_branch_point")
+    # the batch evaluation ships the kernel object to worker processes: a serialised copy evaluates like the original
+    import cloudpickle
+
+    with cut("pickle round trip of the kernel object"):
+        k2 = cloudpickle.loads(cloudpickle.dumps(k))
+    for b, a, le in case["uniform"][:2] + case["special"][:1]:
+        e = energy(le)
+        r1, r2 = run_prod(k, b, a, e), run_prod(k2, b, a, e)
+        require(r1 == r2, f"a pickled copy of the kernel object (detector {det!r} km) gives {r2!r}; the original gives {r1!r} (event beta={math.degrees(b)!r} deg alt={a!r} km E={e!r})")
     if len(rel_uniform) >= 12:
         med = float(np.median(rel_uniform))
         require(med <= 0.005, f"median relative density error over {len(rel_uniform)} uniformly drawn events is {med:.4%} (> 0.5%), detector {det!r} km")
